@@ -243,8 +243,8 @@ def jwe_patches():
     return patches() + [(zlib, "decompressobj", _zdecompressobj)]
 
 
-def _jwe_entry(entry, alg_i, ek_present=True, extra_top=None):
-    key = jwe_key(alg_i)
+def _jwe_entry(entry, alg_i, ek_present=True, extra_top=None, key=None):
+    key = key if key is not None else jwe_key(alg_i)
     ek = b"EKSEG" if ek_present else b""
     if entry == 0:
         return jwe.decrypt_compact(b"PROTSEG." + ek + b".IVSEG.CTSEG.TAGSEG", key, algorithms=ALLOWED)
@@ -260,6 +260,21 @@ def _jwe_entry(entry, alg_i, ek_present=True, extra_top=None):
     else:
         value["recipients"] = [r]
     return jwe.decrypt_json(value, key, algorithms=ALLOWED)
+
+
+def jwe_keyset_kid(kind: int, n: int, s: str, kw: bool, entry: int, v0: bool, v1: bool) -> bool:
+    """
+    PRE: 0 <= kind < NK and len(s) <= 2 and -2 <= n <= 2 and 0 <= entry <= 3
+    POST: _
+    """
+    # the key is a KeySet and the token's "kid" is any JSON value: key resolution runs BEFORE header validation on the JWE paths
+    rt.tick()
+    alg_i = 1 if kw else 0
+    hdr = base_header(alg_i)
+    hdr["kid"] = val(kind, n, s)
+    env = jwe_env(hdr, [v0, v1, v1])
+    ks = KeySet([jwe_key(alg_i), ice.fake_key("oct16", kid="b")])
+    return guarded(env, lambda: _jwe_entry(entry, alg_i, key=ks), jwe_patches())
 
 
 def jwe_header_value(top_kind: int, n: int, s: str, json_fail: int, entry: int, v0: bool) -> bool:
@@ -572,6 +587,9 @@ def _real_jwe(func, args):
     elif func == "jwe_epk_member":
         kind, member_i, okp, present, n, s, epk_invalid, v0 = args
         alg_i, v1, hdr = 4, v0, None
+    elif func == "jwe_keyset_kid":
+        kind, n, s, kw, entry, v0, v1 = args
+        alg_i, hdr = (1 if kw else 0), None
     elif func == "jwe_segments":
         alg_i, seg_fail, ek_present, entry, has_zip, zfail, v0, v1 = args
         hdr = None
@@ -598,6 +616,10 @@ def _real_jwe(func, args):
                 hdr.pop(m, None)
         if func == "jwe_p2c_any_int":
             hdr["p2c"] = (n % 2 == 0) if as_bool else n
+        if func == "jwe_keyset_kid":
+            from joserfc.jwk import KeySet as _KS, OctKey as _OK
+            hdr["kid"] = val(kind, n, s)
+            key = _KS([JWKRegistry.import_key(dict(jwk, kid="a")), _OK.import_key(dict(R.test_key("oct16"), k=R.b64e(b"another-16-octet"), kid="b"))])
         if func == "jwe_epk_member":
             epk = dict(hdr["epk"])
             if present:
